@@ -71,6 +71,8 @@ Judge(rec) ==
             "a move failed but the control file is no longer at its source">>,
           <<(AllPlain(rec) /\ Faulted(rec)) => rec.err, "a step failed but no error was returned">>,
           <<(AllPlain(rec) /\ ~Faulted(rec) /\ ~partial /\ ~(rec.in.fault.kind = "xdev" /\ op = "move")) => ~rec.err, "plain upload without faults failed">>,
+          <<rec.in.fault.kind = "destfile" => (rec.dst_self = "full:destfile" /\ \A f \in files : StateOf(rec.after.src, f) = KeyOf(rec, f)),
+            "the destination is a regular file: it was overwritten, or files of the upload were touched">>,
           <<(rec.err /\ rec.in.fault.kind = "xdev") => \A f \in files : StateOf(rec.after.src, f) = KeyOf(rec, f),
             "a move to another filesystem was refused but the source files are no longer all in place">>,
           <<(~rec.err /\ op \in {"copy", "move"} /\ ~partial) =>
